@@ -25,3 +25,14 @@ func verifYield() {
 		f()
 	}
 }
+
+// VerifSelectOrder, if set, returns the order in which the rewritten Receive polls its three
+// outcome queues before falling into the original select (see instrument -pushselect).
+var VerifSelectOrder func(fast, slow, nack int) []int
+
+func verifSelectOrder(fast, slow, nack int) []int {
+	if f := VerifSelectOrder; f != nil {
+		return f(fast, slow, nack)
+	}
+	return nil
+}
